@@ -97,6 +97,9 @@ func (h *History) hang() string {
 // once, content and container identity intact; nothing duplicated, invented or
 // lost - including items still buffered at Shutdown.
 func VerdictC05(h *History) string {
+	if h.Deadlock != "" {
+		return "" // a deadlock is C11's verdict; nothing else was observed
+	}
 	if m := h.hang(); m != "" {
 		return m
 	}
@@ -139,6 +142,9 @@ func VerdictC05(h *History) string {
 
 // VerdictC06: each caller gets the true outcome of its own items.
 func VerdictC06(h *History) string {
+	if h.Deadlock != "" {
+		return "" // a deadlock is C11's verdict; nothing else was observed
+	}
 	if m := h.hang(); m != "" {
 		return m
 	}
@@ -286,6 +292,9 @@ func VerdictC06(h *History) string {
 
 // VerdictC09: size limits and flush deadlines (upper bounds only).
 func VerdictC09(h *History) string {
+	if h.Deadlock != "" {
+		return "" // a deadlock is C11's verdict; nothing else was observed
+	}
 	if m := h.hang(); m != "" {
 		return m
 	}
@@ -382,6 +391,9 @@ func VerdictC09(h *History) string {
 // when every consume step of the scenario issued exactly one request (then the
 // refusal rule is an iff).
 func VerdictC10(h *History, sequential bool) string {
+	if h.Deadlock != "" {
+		return "" // a deadlock is C11's verdict; nothing else was observed
+	}
 	if m := h.hang(); m != "" {
 		return m
 	}
@@ -484,6 +496,9 @@ func noExportErr(err error) bool {
 
 // VerdictC11: bounded concurrency, drain on shutdown, no deadlock / leak.
 func VerdictC11(h *History) string {
+	if h.Deadlock != "" {
+		return "deadlock: no goroutine of the scenario can run any more and a processor goroutine waits for a lock (state unchanged across two observations; virtual time cannot advance)\n" + h.Deadlock
+	}
 	if m := h.hang(); m != "" {
 		return m
 	}
@@ -574,6 +589,9 @@ func (h *History) exportCombo(e *Export) string {
 // VerdictC18: one caller's context never decides the fate of another
 // caller's items.
 func VerdictC18(h *History) string {
+	if h.Deadlock != "" {
+		return "" // a deadlock is C11's verdict; nothing else was observed
+	}
 	if m := h.hang(); m != "" {
 		return m
 	}
